@@ -197,3 +197,34 @@ Example C05_nonvacuous_infeasible :
   process (Simple false (Single (mkrxn [-1; 0; -2; 1; 2; 0; 0; 0] 0 1 false []))) [4; 0; 2; 0; 1; 0; 0; 0]
   = (Some EInfeasible, [0; 0; -6; 4; 9; 0; 0; 0]).
 Proof. vm_compute. reflexivity. Qed.
+
+(* ---------- histories on copies of a set's members ---------- *)
+(* The members of a set / system are read from heap cells 0..n-1.  Any history of: item or
+   slice-item copy (with or without re-basing), backwards of an item, and basis setter / copy /
+   backwards of the reactions so obtained, leaves the object exactly as it was ... *)
+Theorem C05_history_set_unchanged : forall mws o ops, fst (fst (hist_run mws o ops)) = o.
+Proof. exact history_lemma. Qed.
+Print Assumptions C05_history_set_unchanged.
+
+(* ... hence applying it afterwards to any material equals applying the original *)
+Theorem C05_history_then_apply : forall mws o ops pt w m,
+  call pt w (fst (fst (hist_run mws o ops))) m = call pt w o m.
+Proof. exact history_then_apply_lemma. Qed.
+Print Assumptions C05_history_then_apply.
+
+(* every reaction obtained during the history owns an array of its own (a cell above the set's) *)
+Theorem C05_history_derived_fresh : forall mws o ops,
+  let l := flat_members o in
+  let f := fst (hrun mws (hrefs_from 0 l) (mkhs (map st l) []) ops) in
+  Forall (fun d => (length l <= hcell d < length (hp f))%nat) (derived f).
+Proof. exact history_derived_fresh. Qed.
+Print Assumptions C05_history_derived_fresh.
+
+(* non-vacuity: a history in which every step succeeds and re-bases / reverses copies *)
+Example C05_nonvacuous_history :
+  let ops := [HItemCopy 0 0 (Some true); HItemCopy 1 0 None; HSetBasis 1 true;
+              HItemBackwards 0 (Some 3%nat) None; HBackwards 0 (Some 4%nat) (Some (1 # 2))] in
+  snd (fst (hist_run exW exObj ops)) = [true; true; true; true; true] /\
+  length (snd (hist_run exW exObj ops)) = 4%nat /\
+  fst (fst (hist_run exW exObj ops)) = exObj.
+Proof. vm_compute. repeat split. Qed.
